@@ -108,6 +108,11 @@ class Check:
             and set(info["theorems"][n]) <= lean.ALLOWED_AXIOMS
         ) if not hits else 0
         info["sources_scanned"] = sorted(closure)
+        if self.tier == "thorough" and not b.failed_targets:
+            ok, log, wall = lean.leanchecker(getattr(mod, "LEAN_MODULES", []))
+            info["leanchecker"] = {"ok": ok, "wall_s": round(wall, 1)}
+            if not ok:
+                info["problems"].append("leanchecker rejected the compiled proofs: " + log[-400:])
         self.lean_info = info
         return info
 
@@ -325,6 +330,7 @@ class Check:
                 "distribution": dict(sorted(dist.items())),
                 "exhaustive": bool(getattr(mod, "EXHAUSTIVE", {}).get(self.tier, False)),
                 "translator": info.get("translator", {}).get("summary", {}),
+                "leanchecker": info.get("leanchecker"),
                 "status": status,
             },
             "assumptions": list(getattr(mod, "ASSUMPTIONS", [])),
